@@ -279,7 +279,32 @@ func (c *Ctx) contractCall(fr *Frame, st *State, site ssa.Instruction, fn *ssa.F
 	if con.AssignsAll {
 		kept := c.keptLeaves(con)
 		if c.dry > 0 && c.wr != nil {
-			c.wr.noteKeeps(keptPairs(kept))
+			// loop dry run: a component kept "except e" counts as kept with a direct write at e (the loop
+			// havoc then spares every other object), provided e can be evaluated before the call
+			pairs := keptPairs(kept)
+			for _, k := range kept {
+				if len(k.except) == 0 {
+					continue
+				}
+				ok := true
+				var refs []string
+				for _, e := range k.except {
+					ex, err := parseExprCached(e)
+					if err != nil || strings.Contains(e, "result") {
+						ok = false
+						break
+					}
+					v := env.evalTop(&Clause{Src: e, Expr: ex})
+					refs = append(refs, v.Term)
+				}
+				if ok {
+					pairs = append(pairs, [2]string{k.leaf, k.sort})
+					for _, r := range refs {
+						c.wr.addComp(k.leaf+"\x00"+k.sort, r)
+					}
+				}
+			}
+			c.wr.noteKeeps(pairs)
 		}
 		var keepTerms []string
 		for _, k := range kept {
